@@ -159,13 +159,9 @@ class Walk:
         sha = self.r.head()
         rc, par, _ = self.r.plain_git("rev-parse", "--verify", "-q", sha + "^")
         parent = par.strip() if rc == 0 else "4b825dc642cb6eb9a060e54bf8d69288fbee4904"
-        added = S.added_lines(self.r, parent, sha)
-        un_all, un_pure = split_corr.workdir_added(self.r, sha)
-        ov = {}
-        for p_, a in added.items():
-            m = a & (un_all.get(p_, set()) - un_pure.get(p_, set()))
-            if m:
-                ov[p_] = m
+        # commit lines the commit adds that an unstaged hunk replaces offset for offset (commit coordinates;
+        # since /repo c5877be3 the split compares them in commit coordinates too)
+        ov = split_corr.replaced_committed_lines(self.r, parent, sha)
         if ov:
             self.overlap[sha] = ov
 
